@@ -364,7 +364,7 @@ const METHODS: [&str; 18] = [
     "GET", "POST", "PUT", "DELETE", "HEAD", "OPTIONS", "PATCH", "TRACE", "CONNECT", "PROPFIND", "PROPPATCH",
     "MKCOL", "COPY", "MOVE", "LOCK", "UNLOCK", "MKCALENDAR", "REPORT",
 ];
-const BAD_METHODS: [&str; 6] = ["get", "FOO", "PRI", "G", "GETX", "Post"];
+const BAD_METHODS: [&str; 9] = ["get", "FOO", "PRI", "G", "GETX", "Post", "PURGE", "SEARCH", "QUERY"];
 const OWS: [&str; 5] = ["", " ", "\t", "  ", " \t"];
 const TCHARS: &[u8] = b"abcdefghijklmnopqrstuvwxyzABCDEFGHIJKLMNOPQRSTUVWXYZ0123456789!#$%&'*+-.^_`|~";
 const LANG_CODES: [&str; 14] = ["en", "fr", "de", "es", "zh", "ja", "pt", "ru", "it", "nl", "xx", "tlh", "q", "*"];
@@ -431,7 +431,15 @@ const PLAIN_VALUES: [&str; 14] = [
 
 /// a field-value: no leading/trailing SP/HTAB unless `sloppy`
 fn value(r: &mut Rng) -> Vec<u8> {
-    match r.below(12) {
+    match if r.chance(1, 60) { 12 } else { r.below(12) } {
+        12 => {
+            // obs-text that is not UTF-8 (RFC 7230 field-vchar = VCHAR / obs-text): Latin-1, stray high bytes
+            match r.below(3) {
+                0 => b"caf\xe9".to_vec(),
+                1 => vec![0xff, 0xfe, 0xfd],
+                _ => { let mut v = r.pick(&PLAIN_VALUES).as_bytes().to_vec(); v.push(0xa0 + r.below(0x50) as u8); v.push(b'z'); v }
+            }
+        }
         0..=4 => r.pick(&PLAIN_VALUES).as_bytes().to_vec(),
         5 => r.pick(&UTF8_WORDS).as_bytes().to_vec(),
         6 => format!("{} {}", r.pick(&UTF8_WORDS), r.pick(&PLAIN_VALUES)).trim().as_bytes().to_vec(),
@@ -671,6 +679,8 @@ fn clean_fields(fields: &mut [Field], names: &[&str]) {
             if t.chars().any(|c| c.is_whitespace() && !c.is_ascii()) {
                 f.value = b"plain value".to_vec();
             }
+        } else {
+            f.value = b"plain value".to_vec();
         }
     }
 }
